@@ -30,6 +30,22 @@ fn oneshot_bytes(input: &[u8]) -> Result<(), (String, String)> {
     if v != cat {
         return Err(("strip_bytes.into_vec".into(), format!("into_vec {} != iterator concat {}", show(&v), show(&cat))));
     }
+    // a partly consumed iterator, then into_vec / clone for the rest
+    let mut it2 = strip_bytes(input);
+    let mut taken: Vec<u8> = vec![];
+    for k in 0..pieces.len() {
+        match it2.next() {
+            Some(p) => taken.extend_from_slice(p),
+            None => return Err(("strip_bytes".into(), "iterator ended early on a second pass".into())),
+        }
+        let rest = it2.clone().into_vec();
+        if [taken.clone(), rest.clone()].concat() != cat {
+            return Err((
+                format!("strip_bytes.into_vec(after {} pieces)", k + 1),
+                format!("pieces taken {} + into_vec of the rest {} != whole visible text {}", show(&taken), show(&rest), show(&cat)),
+            ));
+        }
+    }
     if let Some(b) = cat.iter().find(|&&b| vmodel::strip::FORBIDDEN(b)) {
         return Err(("strip_bytes".into(), format!("output contains forbidden byte 0x{b:02x}")));
     }
@@ -67,6 +83,25 @@ fn oneshot_str(input: &str) -> Result<(), (String, String)> {
     if disp != cat {
         return Err(("strip_str.Display".into(), format!("Display {disp:?} != iterator concat {cat:?}")));
     }
+    // a partly consumed iterator: what was taken plus what Display / to_string / clone render
+    // for the rest must still be the whole visible text
+    let mut it = strip_str(input);
+    let mut taken = String::new();
+    for k in 0..pieces.len() {
+        let p = it.next().ok_or_else(|| ("strip_str".to_string(), "iterator ended early on a second pass".to_string()))?;
+        taken.push_str(p);
+        let rest_ts = it.to_string();
+        let rest_disp = format!("{it}");
+        let rest_clone: String = it.clone().collect();
+        for (how, rest) in [("to_string", &rest_ts), ("Display", &rest_disp), ("clone", &rest_clone)] {
+            if format!("{taken}{rest}") != cat {
+                return Err((
+                    format!("strip_str.{how}(after {} pieces)", k + 1),
+                    format!("pieces taken {taken:?} + {how} of the rest {rest:?} != whole visible text {cat:?}"),
+                ));
+            }
+        }
+    }
     Ok(())
 }
 
@@ -88,6 +123,7 @@ pub fn clause_of(m: &str) -> String {
         ("empty piece", "empty-piece"),
         ("surplus", "surplus-output"),
         ("!=", "paths-disagree"),
+        ("ended early", "paths-disagree"),
     ] {
         if m.contains(pat) {
             return c.to_string();
